@@ -2114,7 +2114,12 @@ func (gs *GossipSubRouter) flush() {
 	// send the remaining control messages that wasn't merged with gossip
 	for p, ctl := range gs.control {
 		delete(gs.control, p)
-		out := rpcWithControl(nil, nil, nil, ctl.Graft, ctl.Prune, nil)
+		// drop what has gone stale since the first attempt, as we do when piggybacking
+		out := &RPC{}
+		gs.piggybackControl(p, out, ctl)
+		if out.Control == nil {
+			continue
+		}
 		gs.sendRPC(p, out, false)
 	}
 }
